@@ -1,6 +1,15 @@
 """C17 - result queries and quality indicators: correspondence with Model/Results.v (float instance, ids and
 float bits compared exactly) and Model/Indicators.v (exact rationals; gd through its proved rational
-enclosure), and the direct oracle (the property's clauses evaluated on the implementation's outputs alone)."""
+enclosure), and the direct oracle (the property's clauses evaluated on the implementation's outputs alone).
+
+The model of a query is a function of (tag, vector, costs, front number) of the individuals in problem.individuals
+and of the declared criteria: that is what the unchanged code reads (Individual.population_id, .vector, .costs,
+features['front_number'], Problem.costs[j]['criteria']).  Everything else is varied by the correspondence so that a
+query that starts to depend on it disagrees with the model: how the individual got onto the problem (by hand, through
+Job / Algorithm.evaluate / evaluate_scalar so that costs_signed = sign * round(cost, precision) ++ [marker] exists,
+from_dict, copy), costs_signed itself (consistent, stale, wrong), class, id, state, features, value representation,
+the data-store copy, and the history of the Problem / Results objects (long-lived objects, earlier recordings,
+containers handed out by earlier queries and modified by the caller, re-tagging, replaced lists, changed criteria)."""
 import glob
 import json
 import math
@@ -29,12 +38,17 @@ TRUSTED = [
     "FunctionalExtensionality.functional_extensionality_dep)",
     "hand-written models Model/Results.v and Model/Indicators.v, tied to results.py / problem.py / quality_indicator.py by "
     "this correspondence run (sampled cases)",
-    "Python harness: recording of individuals, id renumbering, float -> hex / exact-rational encoders, generators, direct oracle",
+    "Python harness: recording of individuals (by hand and through artap's own Job / Algorithm / Evaluator / from_dict / "
+    "copy / SqliteDataStore code), id renumbering, float -> hex / exact-rational encoders, generators, direct oracle",
 ]
 ASSUMPTIONS = [
     "recorded values are non-NaN binary64 floats (Python `<`/`==` on them is the strict weak order fltb, -0.0 == 0.0); "
     "every recorded individual has one vector entry per declared parameter and one cost per declared goal; population tags "
     "are integers >= -1 (-1 = never assigned, and population_id=-1 means 'the last population' in Results.population)",
+    "the recorded data of a query is problem.individuals as it is when the query is made: each individual's population_id, "
+    "vector, costs and features['front_number'], and the criteria declared in Problem.costs at that moment; costs_signed "
+    "(the rounded, sign-adjusted copy kept for the selectors), ids, states, other features and the data-store copy are not "
+    "part of it (they are varied by the correspondence, stale and inconsistent values included)",
     "sorted listings: Python's sorted()/list.sort() is the stable sort, tuples compare lexicographically with `==` on the "
     "first component; keys that are `==` but not identical (-0.0 / 0.0) may exchange their places between the two returned "
     "lists (theorem C17_sorted_listing_is_permutation_of_pairs states pairing up to `==` on keys, C17_sorted_listing_exact "
@@ -72,12 +86,27 @@ def eqkey(x):
 
 # ---------------------------------------------------------------------------------------------
 # result queries
-class Rec:
-    __slots__ = ("tag", "vec", "costs", "front")
+PATHS = ("hand", "job", "algorithm", "scalar", "from_dict", "copy")
+EVALUATED = ("job", "algorithm", "scalar")
 
-    def __init__(self, tag, vec, costs, front=1):
+
+class Rec:
+    """One recorded individual: what the model sees (tag, vec, costs, front) and HOW it is put on the problem
+    (`how`: everything the model ignores -- evaluation path, costs_signed, class, id, features, representation)."""
+    __slots__ = ("tag", "vec", "costs", "front", "how")
+
+    def __init__(self, tag, vec, costs, front=1, how=None):
         self.tag, self.vec, self.costs = int(tag), [float(v) for v in vec], [float(v) for v in costs]
         self.front = int(front)         # recorded feature 'front_number'
+        self.how = dict(how or {})
+
+    def js(self):
+        return [self.tag, list(self.vec), list(self.costs), self.front, dict(self.how)]
+
+    def key(self):
+        h = self.how
+        return (self.tag, hxl(self.vec), hxl(self.costs), self.front, h.get("path", "hand"), str(h.get("signed")),
+                h.get("cls", "Individual"), h.get("precision", 7), h.get("id"), h.get("rep", "float"))
 
 
 def gen_tags(rng, n):
@@ -101,27 +130,196 @@ def gen_tags(rng, n):
     return tags
 
 
-def gen_results_case(rng):
-    npar = rng.choice([1, 2, 2, 3])
-    ng = rng.choice([1, 2, 2, 3])
-    crit = [rng.choice(CRITS) for _ in range(ng)]
+def ulps(x, k):
+    for _ in range(abs(k)):
+        x = math.nextafter(x, math.inf if k > 0 else -math.inf)
+    return x
+
+
+def tiny_grid(rng):
+    """values that differ below the stored precision of costs_signed (7 decimals): equal after rounding, different
+    raw; around several magnitudes, plus the gear-train error magnitudes and subnormals."""
+    base = rng.choice([0.0, 1.0, 0.1234567, -3.5, 2.5e-8, 1e-12, 1234.5, 1e300, -1e-7, 0.30000000000000004])
+    kind = rng.choice(["1e-8", "1e-11", "ulp", "mixed", "mixed"])
+    vals = [base]
+    for k in (1, 2, 3):
+        for s in (1, -1):
+            if kind in ("1e-8", "mixed"):
+                vals.append(base + s * k * 1e-8)
+            if kind in ("1e-11", "mixed"):
+                vals.append(base + s * k * 1e-11)
+            if kind in ("ulp", "mixed"):
+                vals.append(ulps(base, s * k))
+    if rng.random() < 0.35:
+        vals += [2.7e-12, 2.3e-11, 9.9e-10, 1.5e-9, 5e-324, 1e-310, 4.9e-8, 5.1e-8]
+    if rng.random() < 0.2:
+        vals += [1e300, ulps(1e300, 1), -1e300, 1e-300]
+    out, seen = [], set()
+    for v in vals:
+        if hx(v) not in seen and math.isfinite(v):
+            seen.add(hx(v))
+            out.append(v)
+    return out
+
+
+def gen_how(rng, profile, recs, ng, grid, collide):
+    """the model-invisible part of one recorded individual."""
+    if profile == "hand":
+        return {}
+    if profile == "evaluated":
+        return {"path": rng.choice(EVALUATED), "tag_when": rng.choice(["before", "after"])}
+    how = {}
     r = rng.random()
-    n = 0 if r < 0.03 else 1 if r < 0.08 else rng.randrange(2, 11)
+    path = ("hand" if r < 0.28 else "job" if r < 0.52 else "algorithm" if r < 0.72 else "scalar" if r < 0.82
+            else "from_dict" if r < 0.92 else "copy")
+    if path == "copy" and not recs:
+        path = "hand"
+    how["path"] = path
+    if path == "copy":
+        how["src"] = rng.randrange(len(recs))
+        return how
+    if path != "scalar":
+        how["cls"] = rng.choice(["Individual", "Individual", "NSGAII", "EpsMOEA", "Swarm"])
+    if path in EVALUATED or (path == "from_dict" and rng.random() < 0.5):
+        how["tag_when"] = rng.choice(["before", "after"])
+        if path == "from_dict":
+            how["base"] = "job"
+        r = rng.random()
+        how["signed"] = (None if r < 0.55 else "stale" if r < 0.72 else "reversed" if r < 0.80 else "constant" if r < 0.86
+                         else "short" if r < 0.91 else "permuted" if r < 0.95 else "exact")
+        if how["signed"] == "stale":
+            how["old_costs"] = [rng.choice(grid) for _ in range(ng)]
+    else:
+        r = rng.random()
+        how["signed"] = (None if r < 0.6 else "rounded" if r < 0.72 else "exact" if r < 0.8 else "reversed" if r < 0.88
+                         else "constant" if r < 0.94 else "stale")
+        if how["signed"] == "stale":
+            how["old_costs"] = [rng.choice(grid) for _ in range(ng)]
+    if rng.random() < 0.2 and path != "scalar":
+        how["precision"] = rng.choice([2, 0, 12, 3])
+    if rng.random() < 0.1 and path != "scalar":
+        how["feasible"] = rng.choice([True, False, 1.5])
+    if collide:
+        how["id"] = rng.choice([0, 0, 1])
     r = rng.random()
-    grid = SMALL if r < 0.55 else ZEROS if r < 0.7 else GRID
-    tags = gen_tags(rng, n)
+    how["rep"] = "float" if r < 0.7 else "np" if r < 0.9 else "int"
+    if path == "from_dict" and how["rep"] == "int":
+        how["rep"] = "float"            # numpy.int64 entries of costs_signed cannot be written as JSON
+    return how
+
+
+def gen_recs(rng, n, npar, ng, grid, tags, profile, earlier=(), collide=False):
     recs = []
     for i in range(n):
-        if recs and rng.random() < 0.2:       # a duplicate of an earlier individual (other tag, other object)
-            o = rng.choice(recs)
+        pool = list(earlier) + recs
+        how = gen_how(rng, profile, pool, ng, grid, collide)
+        if how.get("path") == "copy":            # Individual.copy() of an earlier one: same vector, (shared) costs
+            o = pool[how["src"]]
+            vec, costs = list(o.vec), list(o.costs)
+            how["cls"] = o.how.get("cls", "Individual") if o.how.get("path") not in ("scalar", "from_dict") else "Individual"
+        elif pool and rng.random() < 0.2:       # a duplicate of an earlier individual (other tag, other object)
+            o = rng.choice(pool)
             vec, costs = list(o.vec), list(o.costs)
             if rng.random() < 0.5:
                 costs[rng.randrange(ng)] = rng.choice(grid)
         else:
             vec = [rng.choice(grid) for _ in range(npar)]
             costs = [rng.choice(grid) for _ in range(ng)]
-        recs.append(Rec(tags[i], vec, costs, rng.choice([1, 1, 2, 3])))
-    return npar, crit, recs
+        recs.append(Rec(tags[i], vec, costs, rng.choice([1, 1, 2, 3]), how))
+    return recs
+
+
+def gen_grid(rng, profile):
+    r = rng.random()
+    if profile == "evaluated":
+        return tiny_grid(rng) if r < 0.75 else SMALL if r < 0.85 else GRID
+    if profile == "mixed":
+        return tiny_grid(rng) if r < 0.45 else SMALL if r < 0.7 else ZEROS if r < 0.8 else GRID
+    return SMALL if r < 0.5 else ZEROS if r < 0.62 else GRID if r < 0.9 else tiny_grid(rng)
+
+
+def gen_profile(rng):
+    r = rng.random()
+    return "hand" if r < 0.3 else "evaluated" if r < 0.6 else "mixed"
+
+
+def gen_results_case(rng):
+    npar = rng.choice([1, 2, 2, 3])
+    ng = rng.choice([1, 2, 2, 3])
+    crit = [rng.choice(CRITS) for _ in range(ng)]
+    r = rng.random()
+    n = 0 if r < 0.03 else 1 if r < 0.08 else rng.randrange(2, 11)
+    profile = gen_profile(rng)
+    grid = gen_grid(rng, profile)
+    tags = gen_tags(rng, n)
+    return npar, crit, gen_recs(rng, n, npar, ng, grid, tags, profile, collide=(profile == "mixed" and rng.random() < 0.2))
+
+
+def edited(recs, st):
+    """the records after a 'retag' / 'recost' / 'revector' step (new list, new Rec)."""
+    recs = list(recs)
+    o = recs[st[1]]
+    if st[0] == "retag":
+        recs[st[1]] = Rec(st[2], o.vec, o.costs, o.front, dict(o.how, retagged=True))
+    elif st[0] == "recost":
+        recs[st[1]] = Rec(o.tag, o.vec, st[2], o.front, dict(o.how, recost=True))
+    else:
+        recs[st[1]] = Rec(o.tag, st[2], o.costs, o.front, dict(o.how, revector=True))
+    return recs
+
+
+def gen_session(rng):
+    """A history on ONE problem and ONE long-lived Results object: record, query, record more / re-tag / replace costs or
+    vector / reorder or replace the individuals list / change a goal's criteria, query again ...  Every 'query' step is
+    one correspondence case on the recording as it is at that moment."""
+    npar = rng.choice([1, 2, 2, 3])
+    ng = rng.choice([1, 2, 2])
+    crit = [rng.choice(CRITS) for _ in range(ng)]
+    profile = rng.choice(["evaluated", "mixed", "mixed", "hand"])
+    grid = gen_grid(rng, profile)
+    collide = profile == "mixed" and rng.random() < 0.2
+    fresh = rng.random() < 0.5
+    steps, recs, gen = [], [], 0
+    n = rng.randrange(1, 6)
+    batch = gen_recs(rng, n, npar, ng, grid, [gen] * n if rng.random() < 0.6 else gen_tags(rng, n), profile, recs, collide)
+    steps.append(("record", batch))
+    recs = recs + batch
+    steps.append(("query",))
+    for _ in range(rng.choice([1, 2, 2, 3])):
+        for _ in range(rng.choice([1, 1, 2, 3])):
+            r = rng.random()
+            if r < 0.4 or not recs:
+                gen += 1
+                n = rng.randrange(1, 5)
+                tags = [gen] * n if rng.random() < 0.6 else gen_tags(rng, n)
+                batch = gen_recs(rng, n, npar, ng, grid, tags, profile, recs, collide)
+                steps.append(("record", batch))
+                recs = recs + batch
+            elif r < 0.58:
+                steps.append(("retag", rng.randrange(len(recs)), rng.choice([0, 1, 2, 3, gen + 1, -1, 7])))
+                recs = edited(recs, steps[-1])
+            elif r < 0.72:
+                steps.append(("recost", rng.randrange(len(recs)), [rng.choice(grid) for _ in range(ng)]))
+                recs = edited(recs, steps[-1])
+            elif r < 0.78:
+                steps.append(("revector", rng.randrange(len(recs)), [rng.choice(grid) for _ in range(npar)]))
+                recs = edited(recs, steps[-1])
+            elif r < 0.92:
+                perm = list(range(len(recs)))
+                k = rng.random()
+                if k < 0.4:
+                    rng.shuffle(perm)
+                elif k < 0.7:
+                    perm = perm[1:] + perm[:1]
+                elif k < 0.85:
+                    perm.reverse()
+                # else: the same content in a new list object
+                steps.append(("reorder", perm, rng.random() < 0.5))
+                recs = [recs[i] for i in perm]
+            elif fresh:
+                steps.append(("criteria", rng.randrange(ng), rng.choice(CRITS)))
+        steps.append(("query",))
+    return npar, crit, steps, fresh
 
 
 def crit_l(c):
@@ -147,8 +345,12 @@ def results_queries(rng, npar, crit, recs, full):
     absent = next(t for t in range(0, 12) if t not in tags)
     pids = [-1] + tags + [absent]
     qs = []
-    for pid in pids:
-        qs.append(("QPopulation %s" % zl(pid), ("population", pid)))
+    if full:
+        for pid in pids:
+            qs.append(("QPopulation %s" % zl(pid), ("population", pid)))
+    else:
+        for pid in [-1, rng.choice(pids), rng.choice(pids)]:
+            qs.append(("QPopulation %s" % zl(pid), ("population", pid)))
     for pid in ([-1] + tags[:2] + [absent]) if full else [rng.choice(pids)]:
         qs.append(("QProblemPopulation %s" % zl(pid), ("problem_population", pid)))
     qs.append(("QLastPopulation", ("last_population",)))
@@ -157,23 +359,25 @@ def results_queries(rng, npar, crit, recs, full):
     qs.append(("QTable false", ("table", False)))
     qs.append(("QParameters", ("parameters",)))
     qs.append(("QCosts", ("costs",)))
-    for pi in range(npar):
-        for gi in range(ng):
-            pid = rng.choice(pids)
-            for s in (False, True):
-                qs.append(("QGoalOnParameter %s %s %s %s" % (nl(pi), nl(gi), zl(pid), bl(s)), ("goal_on_parameter", pi, gi, pid, s)))
-            pid = rng.choice(pids)
-            for s in (False, True):
-                qs.append(("QParameterOnGoal %s %s %s %s" % (nl(gi), nl(pi), zl(pid), bl(s)), ("parameter_on_goal", gi, pi, pid, s)))
-    for _ in range(2):
+    pairs = [(pi, gi) for pi in range(npar) for gi in range(ng)]
+    if not full:
+        pairs = rng.sample(pairs, min(2, len(pairs)))
+    for pi, gi in pairs:
+        pid = rng.choice(pids)
+        for s in (False, True):
+            qs.append(("QGoalOnParameter %s %s %s %s" % (nl(pi), nl(gi), zl(pid), bl(s)), ("goal_on_parameter", pi, gi, pid, s)))
+        pid = rng.choice(pids)
+        for s in (False, True):
+            qs.append(("QParameterOnGoal %s %s %s %s" % (nl(gi), nl(pi), zl(pid), bl(s)), ("parameter_on_goal", gi, pi, pid, s)))
+    for _ in range(2 if full else 1):
         p1, p2, pid = rng.randrange(npar), rng.randrange(npar), rng.choice(pids)
         for s in (False, True):
             qs.append(("QParameterOnParameter %s %s %s %s" % (nl(p1), nl(p2), zl(pid), bl(s)), ("parameter_on_parameter", p1, p2, pid, s)))
     pid = rng.choice(pids)
-    for w in [None] + list(range(ng)):
+    for w in ([None] + list(range(ng))) if full else [None, rng.randrange(ng)]:
         qs.append(("QGoalOnIndex %s %s" % (optl(w, nl), zl(pid)), ("goal_on_index", w, pid)))
     pid = rng.choice(pids)
-    for w in [None] + list(range(npar)):
+    for w in ([None] + list(range(npar))) if full else [None, rng.randrange(npar)]:
         qs.append(("QParameterOnIndex %s %s" % (optl(w, nl), zl(pid)), ("parameter_on_index", w, pid)))
     front = ll([i for i, r in enumerate(recs) if r.front == 1], nl)
     for pid in [None, rng.choice(pids)]:
@@ -184,26 +388,295 @@ def results_queries(rng, npar, crit, recs, full):
     qs.append(("QFindOptimum %s" % nl(0), ("find_optimum", None)))
     for gi in range(ng):
         qs.append(("QFindOptimum %s" % nl(gi), ("find_optimum", gi)))
+    # asked again at the end, after every list handed out above has been modified by the caller
+    pid = rng.choice(pids)
+    qs.append(("QPopulation %s" % zl(pid), ("population", pid)))
+    qs.append(("QPopulations", ("populations",)))
+    qs.append(("QTable false", ("table", False)))
+    gi = rng.randrange(ng)
+    qs.append(("QFindOptimum %s" % nl(gi), ("find_optimum", gi)))
     return qs
 
 
-def run_results_case(env, npar, crit, recs, queries, ctx, stats):
-    """Records the individuals on a problem, runs every query on the implementation, runs the direct oracle on
-    the outputs, returns the list of observation terms."""
-    Individual, Results = env["Individual"], env["Results"]
-    problem = env["problem"](npar, crit)
-    inds = []
-    for r in recs:
-        ind = Individual(list(r.vec))
-        ind.costs = list(r.costs)
-        ind.population_id = r.tag
-        ind.features["front_number"] = r.front
-        inds.append(ind)
-    problem.individuals = list(inds)          # the recording
+def conv(v, rep, np):
+    if rep == "np":
+        return np.float64(v)
+    if rep == "int" and math.isfinite(v) and v != 0 and abs(v) < 2 ** 53 and v == int(v):
+        return int(v)
+    return v
+
+
+class Session:
+    """one problem, its long-lived Results / algorithm / job objects, the live individuals and their records."""
+
+    def __init__(self, env, npar, crit, pooled, parts=None):
+        self.env, self.npar, self.crit = env, npar, list(crit)
+        self.problem, self.results, self.algorithm, self.job = parts or env["problem"](npar, crit, pooled)
+        self.objs, self.recs, self.history = [], [], []
+        self.pooled, self.reused = pooled, 0
+
+    def start(self, rng):
+        """an empty recording: a new list object or the old one emptied in place (the problem may be an old one)."""
+        if rng.random() < 0.5:
+            self.problem.individuals = []
+        else:
+            self.problem.individuals.clear()
+        if rng.random() < 0.3:
+            self.results = self.env["Results"](self.problem)
+        self.objs, self.recs = [], []
+
+    # ---- recording ----------------------------------------------------------------------------
+    def record(self, batch):
+        env, p = self.env, self.problem
+        np = env["np"]
+        ng = len(self.crit)
+        pending = []          # consecutive individuals evaluated by ONE Algorithm.evaluate call
+
+        def flush():
+            if pending:
+                self.algorithm.evaluate([o for o, _ in pending])
+                for o, r in pending:
+                    self.finish(o, r)
+                del pending[:]
+
+        for r in batch:
+            how = r.how
+            path = how.get("path", "hand")
+            rep = how.get("rep", "float")
+            vec = [conv(v, rep, np) for v in r.vec]
+            costs = [conv(v, rep, np) for v in r.costs]
+            first = [conv(v, rep, np) for v in how["old_costs"]] if how.get("signed") == "stale" else costs
+            if path != "algorithm":
+                flush()
+            if path == "scalar":
+                p.queue.append(first)
+                self.algorithm.evaluator.evaluate_scalar(vec)       # creates, appends and evaluates the individual itself
+                o = p.individuals[-1]
+                self.objs.append(o)
+                self.finish(o, r)
+                continue
+            if path == "copy":
+                src = self.objs[how["src"]] if how["src"] < len(self.objs) else None
+                if src is None or not hasattr(src, "copy") or [float(v) for v in src.vector] != r.vec:
+                    raise Err("harness: bad copy source")
+                o = src.copy()
+                if not (o.costs is src.costs and len(o.costs) == ng):      # only IndividualNSGAII.copy shares the costs
+                    o.costs = costs
+                o.population_id = r.tag
+                o.features["front_number"] = r.front
+                p.individuals.append(o)
+                self.objs.append(o)
+                continue
+            o = env["classes"][how.get("cls", "Individual")](vec)
+            if "precision" in how:
+                o.features["precision"] = how["precision"]
+            if "feasible" in how:
+                o.features["feasible"] = how["feasible"]
+            if "id" in how:
+                o.id = how["id"]
+            if "best_cost" in o.features:                    # swarm individuals carry a second cost/vector pair
+                o.features["best_cost"] = [c + 1.0 for c in r.costs][::-1]
+                o.features["best_vector"] = [v - 1.0 for v in r.vec][::-1]
+            base = how.get("base", "hand") if path == "from_dict" else path
+            if base in EVALUATED and how.get("tag_when") == "before":
+                o.population_id = r.tag
+            if path == "from_dict":
+                if base == "job":
+                    p.pending[id(o)] = first
+                    self.job.evaluate(o)
+                self.finish(o, r)
+                d = o.to_dict()
+                if how.get("json", True):
+                    d = json.loads(json.dumps(d))
+                o = env["Individual"].from_dict(d)
+                p.individuals.append(o)
+                self.objs.append(o)
+                continue
+            p.individuals.append(o)
+            self.objs.append(o)
+            if path == "hand":
+                self.finish(o, r)
+            elif path == "job":
+                p.pending[id(o)] = first
+                self.job.evaluate(o)
+                self.finish(o, r)
+            else:
+                p.pending[id(o)] = first
+                pending.append((o, r))
+        flush()
+        self.recs = self.recs + list(batch)
+        self.verify()
+
+    def verify(self):
+        """harness self-check: the live objects carry exactly the records (a failure here is a harness error)."""
+        if not self.in_sync() or len(self.objs) != len(self.recs):
+            raise Err("harness: problem.individuals is not the list of recorded objects")
+        for i, (o, r) in enumerate(zip(self.objs, self.recs)):
+            if not (hxl(o.vector) == hxl(r.vec) and hxl(o.costs) == hxl(r.costs) and o.population_id == r.tag
+                    and o.features["front_number"] == r.front):
+                raise Err("harness: recorded object %d does not carry its record" % i)
+
+    def finish(self, o, r):
+        """after the evaluation: tag, front number, the final costs and the requested state of costs_signed."""
+        env, how = self.env, r.how
+        np = env["np"]
+        rep = how.get("rep", "float")
+        path = how.get("path", "hand")
+        evaluated = path in EVALUATED or (path == "from_dict" and how.get("base") == "job")
+        signs = self.problem.signs
+        o.population_id = r.tag
+        o.features["front_number"] = r.front
+        if "id" in how:
+            o.id = how["id"]
+        costs = [conv(v, rep, np) for v in r.costs]
+        mode = how.get("signed")
+        if evaluated:
+            if o.state != o.State.EVALUATED or len(o.costs_signed) != len(r.costs) + 1:
+                raise Err("harness: the individual was not evaluated by the job")
+            if mode == "stale":
+                o.costs = costs                   # the costs were replaced after the evaluation; costs_signed is old
+            elif [hx(float(c)) for c in o.costs] != [hx(c) for c in r.costs]:
+                raise Err("harness: the job stored other costs than the problem returned")
+        else:
+            o.costs = costs
+        marker = [not o.features["feasible"]]
+        if mode == "reversed":
+            o.costs_signed = [-s * c for s, c in zip(signs, r.costs)] + marker
+        elif mode == "constant":
+            o.costs_signed = [0.0] * len(r.costs) + marker
+        elif mode == "short":
+            o.costs_signed = marker if len(r.costs) > 1 else []
+        elif mode == "permuted":
+            o.costs_signed = [s * c for s, c in zip(signs, r.costs[1:] + r.costs[:1])] + marker
+        elif mode == "exact":
+            o.costs_signed = [s * c for s, c in zip(signs, r.costs)] + marker
+        elif mode == "rounded":
+            o.calc_signed_costs(signs)
+        elif mode == "stale" and not evaluated:
+            o.costs_signed = [s * c for s, c in zip(signs, how["old_costs"])] + marker
+
+    # ---- the other history steps --------------------------------------------------------------
+    def step(self, st):
+        kind = st[0]
+        p = self.problem
+        if kind == "record":
+            self.record(st[1])
+            self.history.append(["record", [r.js() for r in st[1]]])
+        elif kind == "retag":
+            self.objs[st[1]].population_id = st[2]
+            self.recs = edited(self.recs, st)
+            self.history.append(["retag", st[1], st[2]])
+        elif kind == "recost":
+            self.objs[st[1]].costs = list(st[2])              # a new list; costs_signed, if any, stays what it was
+            self.recs = edited(self.recs, st)
+            self.history.append(["recost", st[1], list(st[2])])
+        elif kind == "revector":
+            self.objs[st[1]].vector = list(st[2])
+            self.recs = edited(self.recs, st)
+            self.history.append(["revector", st[1], list(st[2])])
+        elif kind == "reorder":
+            perm, inplace = st[1], st[2]
+            self.objs = [self.objs[i] for i in perm]
+            self.recs = [self.recs[i] for i in perm]
+            if inplace:
+                p.individuals[:] = self.objs
+            else:
+                p.individuals = list(self.objs)
+            self.history.append(["reorder", list(perm), "in place" if inplace else "new list"])
+        elif kind == "criteria":
+            j, c = st[1], st[2]
+            if c is None:
+                p.costs[j].pop("criteria", None)
+            else:
+                p.costs[j]["criteria"] = c
+            self.crit[j] = c
+            self.history.append(["criteria", j, c])
+        else:
+            raise ValueError(kind)
+        self.verify()
+
+    def in_sync(self):
+        ind = self.problem.individuals
+        return len(ind) == len(self.objs) and all(a is b for a, b in zip(ind, self.objs))
+
+
+def signed_sensitivity(crit, objs, recs):
+    """harness-side measurement (not a check): would ranking by costs_signed pick another optimum than ranking by costs,
+    do the costs_signed values differ from the costs?"""
+    rank = values = False
+    for j, c in enumerate(crit):
+        if not objs or any(len(o.costs_signed) <= j for o in objs):
+            continue
+        try:
+            by_signed = min(range(len(objs)), key=lambda i: objs[i].costs_signed[j])
+        except Exception:
+            continue
+        vals = [r.costs[j] for r in recs]
+        best = min(vals) if c in (None, "minimize") else max(vals)
+        rank = rank or vals[by_signed] != best
+        values = values or any(hx(float(o.costs_signed[j])) != hx(r.costs[j]) for o, r in zip(objs, recs))
+    return rank, values
+
+
+def scramble(rng, kind, raw):
+    """the caller post-processes what a query handed out (the outer containers and the lists that are not the
+    individuals' own vector / costs lists): a later query must not be affected."""
+    try:
+        if kind in ("population", "problem_population", "last_population", "pareto_individuals"):
+            k = rng.randrange(4)
+            if k == 0:
+                raw.reverse()
+            elif k == 1:
+                raw.clear()
+            elif k == 2:
+                raw.sort(key=lambda o: -float(o.costs[0]) if len(o.costs) else 0.0)
+                del raw[1:]
+            else:
+                raw.extend(raw[:1] * 2)
+        elif kind == "populations":
+            for v in list(raw.values()):
+                v.reverse()
+                del v[1:]
+            if rng.random() < 0.5:
+                raw.clear()
+            else:
+                raw[97] = []
+        elif kind in ("parameters", "pareto_values"):          # rows are the individuals' own lists: outer list only
+            raw.reverse()
+            del raw[1:]
+        elif kind == "table":
+            if isinstance(raw, list):
+                for row in raw:
+                    if isinstance(row, list):
+                        row.clear()
+                raw.reverse()
+                del raw[1:]
+        elif kind in ("costs", "goal_on_parameter", "parameter_on_goal", "parameter_on_parameter", "goal_on_index",
+                      "parameter_on_index", "pareto_front"):
+            for col in raw:
+                if isinstance(col, list):
+                    col.reverse()
+                    del col[1:]
+            raw.reverse()
+        elif kind == "get_population_ids":
+            raw.clear()
+    except Exception:
+        pass
+
+
+def run_queries(sess, queries, ctx, stats, rng, scramble_p):
+    """Runs every query on the implementation for the recording as it is now, runs the direct oracle on the outputs,
+    returns the list of observation terms."""
+    env = sess.env
+    problem, res, npar, crit, recs, inds = sess.problem, sess.results, sess.npar, sess.crit, list(sess.recs), list(sess.objs)
     ident = {id(o): i for i, o in enumerate(inds)}
-    res = Results(problem)
-    case_json = {"kind": "results", "nparams": npar, "criteria": crit,
-                 "recorded": [[r.tag, list(r.vec), list(r.costs), r.front] for r in recs]}
+    case_json = {"kind": "results", "nparams": npar, "criteria": list(crit), "recorded": [r.js() for r in recs]}
+    if sess.history:
+        case_json["history"] = list(sess.history)
+    if sess.reused:
+        case_json["earlier_recordings_on_this_problem_object"] = sess.reused
+    asked = []
+    sess.history.append(["queries", asked])
 
     def ids(lst):
         out = []
@@ -230,27 +703,32 @@ def run_results_case(env, npar, crit, recs, queries, ctx, stats):
     for term, q in queries:
         kind = q[0]
         stats["queries"][kind] = stats["queries"].get(kind, 0) + 1
+        asked.append(list(q))
+        raw = None
         try:
             if kind == "population":
-                out = ids(res.population(q[1]) if q[1] != -1 or stats["flip"]() else res.population())
+                raw = res.population(q[1]) if q[1] != -1 or stats["flip"]() else res.population()
+                out = ids(raw)
                 obs.append("OIds %s" % ll(out, nl))
                 if out != want_population(q[1]):
                     fail("population(%d) returned individuals %r, the individuals carrying that tag in recording order are %r"
                          % (q[1], out, want_population(q[1])), q, out)
             elif kind == "problem_population":
-                out = ids(problem.population(q[1]))
+                raw = problem.population(q[1])
+                out = ids(raw)
                 obs.append("OIds %s" % ll(out, nl))
                 want = [i for i, r in enumerate(recs) if r.tag == q[1]]
                 if out != want:
                     fail("Problem.population(%d) returned %r, expected %r" % (q[1], out, want), q, out)
             elif kind == "last_population":
-                out = ids(problem.last_population())
+                raw = problem.last_population()
+                out = ids(raw)
                 obs.append("OIds %s" % ll(out, nl))
                 if out != want_population(-1):
                     fail("last_population() returned %r, the last generation is %r" % (out, want_population(-1)), q, out)
             elif kind == "populations":
-                d = problem.populations()
-                out = [(int(k), ids(v)) for k, v in d.items()]
+                raw = problem.populations()
+                out = [(int(k), ids(v)) for k, v in raw.items()]
                 obs.append("OGroups %s" % ll(["(%s, %s)" % (zl(k), ll(v, nl)) for k, v in out]))
                 for k, v in out:
                     if v != [i for i, r in enumerate(recs) if r.tag == k]:
@@ -258,8 +736,8 @@ def run_results_case(env, npar, crit, recs, queries, ctx, stats):
                 if sorted(k for k, _ in out) != sorted(set(r.tag for r in recs)):
                     fail("populations() keys %r differ from the recorded tags" % ([k for k, _ in out],), q, out)
             elif kind in ("table", "parameters"):
-                out = res.table(transpose=q[1]) if kind == "table" else res.parameters()
-                out = [list(map(float, row)) for row in out]
+                raw = res.table(transpose=q[1]) if kind == "table" else res.parameters()
+                out = [list(map(float, row)) for row in raw]
                 obs.append("OTable %s" % fll(out))
                 if kind == "parameters":
                     if Counter(hxl(row) for row in out) != Counter(hxl(r.vec) for r in recs):
@@ -273,7 +751,8 @@ def run_results_case(env, npar, crit, recs, queries, ctx, stats):
                     if Counter(hxl(row) for row in rows) != rows_want:
                         fail("table rows are not the recorded individuals' (vector + own costs) rows", q, out)
             elif kind == "costs":
-                out = [list(map(float, col)) for col in res.costs()]
+                raw = res.costs()
+                out = [list(map(float, col)) for col in raw]
                 obs.append("OTable %s" % fll(out))
                 if Counter(hxl(t) for t in zip(*out)) != Counter(hxl(r.costs) for r in recs) or len(out) != len(crit):
                     fail("costs() columns do not zip back to the recorded individuals' cost vectors", q, out)
@@ -282,13 +761,13 @@ def run_results_case(env, npar, crit, recs, queries, ctx, stats):
                 pn, gn = env["pname"], env["gname"]
                 kw = {} if (pid == -1 and stats["flip"]()) else {"population_id": pid}
                 if kind == "goal_on_parameter":
-                    out = res.goal_on_parameter(pn(a), gn(b), sorted=s, **kw)
+                    raw = out = res.goal_on_parameter(pn(a), gn(b), sorted=s, **kw)
                     pairs = [(recs[i].vec[a], recs[i].costs[b]) for i in want_population(pid)]
                 elif kind == "parameter_on_goal":
-                    out = res.parameter_on_goal(gn(a), pn(b), sorted=s, **kw)
+                    raw = out = res.parameter_on_goal(gn(a), pn(b), sorted=s, **kw)
                     pairs = [(recs[i].costs[a], recs[i].vec[b]) for i in want_population(pid)]
                 else:
-                    out = res.parameter_on_parameter(pn(a), pn(b), sorted=s, **kw)
+                    raw = out = res.parameter_on_parameter(pn(a), pn(b), sorted=s, **kw)
                     pairs = [(recs[i].vec[a], recs[i].vec[b]) for i in want_population(pid)]
                 if len(out) != 2:
                     raise Err("listing does not have two lists")
@@ -308,10 +787,10 @@ def run_results_case(env, npar, crit, recs, queries, ctx, stats):
                 w, pid = q[1], q[2]
                 kw = {} if (pid == -1 and stats["flip"]()) else {"population_id": pid}
                 if kind == "goal_on_index":
-                    out = res.goal_on_index(None if w is None else env["gname"](w), **kw)
+                    raw = out = res.goal_on_index(None if w is None else env["gname"](w), **kw)
                     cols = [[recs[i].costs[j] for i in want_population(pid)] for j in (range(len(crit)) if w is None else [w])]
                 else:
-                    out = res.parameter_on_index(None if w is None else env["pname"](w), **kw)
+                    raw = out = res.parameter_on_index(None if w is None else env["pname"](w), **kw)
                     cols = [[recs[i].vec[j] for i in want_population(pid)] for j in (range(npar) if w is None else [w])]
                 idx = list(out[0])
                 got = [list(map(float, c)) for c in out[1:]]
@@ -326,24 +805,28 @@ def run_results_case(env, npar, crit, recs, queries, ctx, stats):
                 kw = {} if pid is None else {"population_id": pid}
                 want = [i for i in want_population(-1 if pid is None else pid) if recs[i].front == 1]
                 if kind == "pareto_individuals":
-                    out = ids(res.pareto_individuals(**kw))
+                    raw = res.pareto_individuals(**kw)
+                    out = ids(raw)
                     obs.append("OIds %s" % ll(out, nl))
                     if out != want:
                         fail("pareto_individuals(%r) returned %r, the population's individuals with front number 1 are %r" % (pid, out, want), q, out)
                 else:
-                    out = [list(map(float, c)) for c in res.pareto_front(**kw)]
+                    raw = res.pareto_front(**kw)
+                    out = [list(map(float, c)) for c in raw]
                     obs.append("OTable %s" % fll(out))
                     if [hxl(c) for c in out] != [hxl([recs[i].costs[j] for i in want]) for j in range(len(crit))]:
                         fail("pareto_front(%r) does not list, goal by goal, the costs of the population's individuals with front number 1" % (pid,), q, out)
             elif kind == "pareto_values":
-                out = [list(map(float, c)) for c in res.pareto_values()]
+                raw = res.pareto_values()
+                out = [list(map(float, c)) for c in raw]
                 obs.append("OTable %s" % fll(out))
                 last = want_population(-1)
                 full = [hxl(recs[i].costs) for i in last]
                 if [hxl(c) for c in out] != full and not (len(last) <= 1 and out == []):      # the code returns [] for <= 1 member
                     fail("pareto_values() is not the list of cost vectors of the last generation", q, out)
             elif kind == "get_population_ids":
-                out = sorted(int(t) for t in res.get_population_ids())
+                raw = res.get_population_ids()
+                out = sorted(int(t) for t in raw)
                 obs.append("OTags %s" % ll(out, zl))
                 if out != sorted(set(r.tag for r in recs)):
                     fail("get_population_ids() = %r differs from the recorded tags" % (out,), q, out)
@@ -357,7 +840,7 @@ def run_results_case(env, npar, crit, recs, queries, ctx, stats):
                 oi = ident[id(o)]
                 obs.append("OOpt %s" % nl(oi))
                 idx = 0 if gi is None else gi
-                vals = [r.costs[idx] for r in recs]
+                vals = [r.costs[idx] for r in recs]            # the raw recorded costs, compared exactly
                 if crit[idx] in (None, "minimize"):
                     if any(v < vals[oi] for v in vals):
                         fail("find_optimum(%r): cost %r of the returned individual %d is not minimal over the recorded costs %r"
@@ -375,7 +858,27 @@ def run_results_case(env, npar, crit, recs, queries, ctx, stats):
             legit = (not recs) and kind in ("costs", "find_optimum")      # nothing recorded: IndexError / ValueError
             if not legit:
                 fail("%s raised %r on a well-formed recording" % (kind, e), q, repr(e))
-    return obs, case_json
+        if raw is not None and rng.random() < scramble_p:
+            scramble(rng, kind, raw)
+            stats["returned_containers_modified"] += 1
+    # the queries are views: the recording itself is as it was (otherwise no later query can return the recorded
+    # individuals in recording order with their own values)
+    now = problem.individuals
+    if not (len(now) == len(inds) and all(a is b for a, b in zip(now, inds))):
+        fail("after the queries problem.individuals is no longer the recording (objects / order changed)", ("recording",),
+             [ident.get(id(o)) for o in now])
+        problem.individuals = list(inds)
+    else:
+        for i, (o, r) in enumerate(zip(inds, recs)):
+            try:
+                same = (hxl(o.vector) == hxl(r.vec) and hxl(o.costs) == hxl(r.costs) and o.population_id == r.tag)
+            except Exception:
+                same = False
+            if not same:
+                fail("after the queries recorded individual %d carries other data (vector %r, costs %r, tag %r)"
+                     % (i, o.vector, o.costs, o.population_id), ("recording",), i)
+                o.vector, o.costs, o.population_id = list(r.vec), list(r.costs), r.tag
+    return obs, dict(case_json, _recs=recs, _objs=inds)
 
 
 # ---------------------------------------------------------------------------------------------
@@ -445,64 +948,92 @@ def float_gd(ref, comp):
 def run(ctx):
     import logging
     logging.disable(logging.CRITICAL)
-    from artap.problem import Problem
+    import numpy as np
+    from artap.problem import Problem, ProblemViewDataStore
     from artap.individual import Individual
     from artap.results import Results
+    from artap.algorithm import DummyAlgorithm
+    from artap.datastore import SqliteDataStore
+    from artap.algorithm_NSGAII import IndividualNSGAII
+    from artap.algorithm_genetic import IndividualEpsMOEA
+    from artap.algorithm_swarm import IndividualSwarm
     import artap.quality_indicator as qi
     rng = ctx.rng
 
     class RecordedProblem(Problem):
+        """A real Problem: individuals recorded through Algorithm.evaluate / Job.evaluate / Evaluator.evaluate_scalar get
+        the costs the harness prepared for them (by object, or next in the queue when the evaluator creates the object)."""
+
         def set(self, **kwargs):
             self.name = "recorded"
             self.parameters = kwargs["parameters"]
             self.costs = kwargs["costs"]
+            self.pending = {}
+            self.queue = []
 
         def evaluate(self, individual):
-            raise AssertionError("the harness records individuals itself")
+            if id(individual) in self.pending:
+                return self.pending.pop(id(individual))
+            return self.queue.pop(0)
 
     pname = lambda i: "x_%d" % i
     gname = lambda j: "F_%d" % j
-    problems = {}
+    problems, used = {}, {}
 
-    def problem(npar, crit):
+    def new_problem(npar, crit):
+        costs = []
+        for j, c in enumerate(crit):
+            d = {"name": gname(j)}
+            if c is not None:
+                d["criteria"] = c
+            costs.append(d)
+        p = RecordedProblem(parameters=[{"name": pname(i), "bounds": [-10, 10]} for i in range(npar)], costs=costs)
+        a = DummyAlgorithm(p)               # ONE algorithm / evaluator / job / Results object per problem, as artap has
+        return (p, Results(p), a, a.evaluator.job)
+
+    def retire(p):
+        """a private problem is cleaned up as soon as its case is over (artap names the working directory after the
+        microsecond of construction: thousands of problems left to the atexit handlers collide and fail noisily)."""
+        import atexit
+        atexit.unregister(p.cleanup)
+        try:
+            p.cleanup()
+        except OSError:
+            pass
+
+    def problem(npar, crit, pooled=True):
+        if not pooled:
+            return new_problem(npar, crit)
         key = (npar, tuple(crit))
         if key not in problems:
-            costs = []
-            for j, c in enumerate(crit):
-                d = {"name": gname(j)}
-                if c is not None:
-                    d["criteria"] = c
-                costs.append(d)
-            problems[key] = RecordedProblem(parameters=[{"name": pname(i), "bounds": [-10, 10]} for i in range(npar)], costs=costs)
+            problems[key] = new_problem(npar, crit)
+        used[key] = used.get(key, 0) + 1
         return problems[key]
 
-    env = {"Individual": Individual, "Results": Results, "problem": problem, "pname": pname, "gname": gname}
+    env = {"Individual": Individual, "Results": Results, "problem": problem, "pname": pname, "gname": gname, "np": np,
+           "classes": {"Individual": Individual, "NSGAII": IndividualNSGAII, "EpsMOEA": IndividualEpsMOEA, "Swarm": IndividualSwarm}}
     stats = {"queries": {}, "errors": {}, "optimum_ties": 0, "flip": lambda: rng.random() < 0.5,
              "individuals_hist": {}, "distinct_tags_hist": {}, "goals_hist": {}, "criteria_hist": {},
-             "unsorted_tags": 0, "repeated_tags": 0, "duplicate_values": 0, "signed_zero_cases": 0}
-
-    # ---- result queries -------------------------------------------------------------------
-    corpus = []
-    for path in sorted(glob.glob(os.path.join(VERIF, "corpus", "C17", "*.json"))):
-        for c in json.load(open(path))["cases"]:
-            corpus.append(c)
-    rcases = [(c["nparams"], c["criteria"], [Rec(*r) for r in c["recorded"]]) for c in corpus if c["kind"] == "results"]
-    n_random = ctx.pick(450, 12000)
-    for _ in range(n_random):
-        rcases.append(gen_results_case(rng))
+             "unsorted_tags": 0, "repeated_tags": 0, "duplicate_values": 0, "signed_zero_cases": 0,
+             "recording_path_hist": {}, "costs_signed_hist": {}, "class_hist": {}, "representation_hist": {},
+             "cases_with_evaluated_individuals": 0, "cases_with_costs_below_stored_precision": 0,
+             "cases_where_ranking_by_costs_signed_gives_another_optimum": 0,
+             "cases_where_costs_signed_values_differ_from_costs": 0, "cases_with_colliding_ids": 0,
+             "cases_with_shared_vectors_and_other_costs": 0, "returned_containers_modified": 0,
+             "sessions": 0, "session_snapshots": 0, "session_steps": {}, "single_recordings": 0,
+             "recordings_on_a_reused_problem": 0, "sqlite_live": 0, "sqlite_loaded": 0, "sqlite_skipped": 0}
 
     cases, expected, meta = [], [], []
-    for k, (npar, crit, recs) in enumerate(rcases):
-        queries = results_queries(rng, npar, crit, recs, full=(k < len(corpus) or k % 5 == 0))
-        obs, cj = run_results_case(env, npar, crit, recs, queries, ctx, stats)
+
+    def emit(sess, queries, obs, cj, label):
+        npar, crit, recs, objs = sess.npar, list(sess.crit), cj.pop("_recs"), cj.pop("_objs")
         cases.append("{| c_nparams := %s; c_crit := %s; c_recs := %s; c_queries := %s |}" % (
             nl(npar), ll([crit_l(c) for c in crit]), ll([rec_l(i, r) for i, r in enumerate(recs)]), ll([t for t, _ in queries])))
         expected.append(ll(obs))
-        meta.append(dict(cj, queries=[list(q) for _, q in queries]))
+        meta.append(dict(cj, queries=[list(q) for _, q in queries], how=label))
         tags = [r.tag for r in recs]
         allv = [hx(v) for r in recs for v in r.vec + r.costs]
-        nontrivial = len(recs) >= 2
-        ctx.count(("R", npar, tuple(crit), tuple((r.tag, hxl(r.vec), hxl(r.costs), r.front) for r in recs)), nontrivial=nontrivial)
+        ctx.count(("R", label, npar, tuple(str(c) for c in crit), tuple(r.key() for r in recs)), nontrivial=len(recs) >= 2)
         for h, v in (("individuals_hist", len(recs)), ("distinct_tags_hist", len(set(tags))), ("goals_hist", len(crit))):
             stats[h][v] = stats[h].get(v, 0) + 1
         for c in crit:
@@ -511,9 +1042,115 @@ def run(ctx):
         stats["repeated_tags"] += len(set(tags)) < len(tags)
         stats["duplicate_values"] += any(n > 1 for n in Counter(hx(r.costs[0]) for r in recs).values())
         stats["signed_zero_cases"] += (float(0).hex() in allv and (-0.0).hex() in allv)
-        if len(ctx.samples) < 2 and len(recs) >= 4 and len(set(tags)) >= 2:
+        for r in recs:
+            for h, v in (("recording_path_hist", r.how.get("path", "hand")), ("costs_signed_hist", str(r.how.get("signed"))),
+                         ("class_hist", r.how.get("cls", "Individual")), ("representation_hist", r.how.get("rep", "float"))):
+                stats[h][v] = stats[h].get(v, 0) + 1
+        stats["cases_with_evaluated_individuals"] += any(len(o.costs_signed) for o in objs)
+        below = False
+        for j in range(len(crit)):
+            vals = sorted(set(r.costs[j] for r in recs if math.isfinite(r.costs[j])))
+            below = below or any(0 < b - a < 5e-8 for a, b in zip(vals, vals[1:]))
+        stats["cases_with_costs_below_stored_precision"] += below
+        rank, values = signed_sensitivity(crit, objs, recs)
+        stats["cases_where_ranking_by_costs_signed_gives_another_optimum"] += rank
+        stats["cases_where_costs_signed_values_differ_from_costs"] += values
+        ids_ = [getattr(o, "id", None) for o in objs]
+        stats["cases_with_colliding_ids"] += len(set(ids_)) < len(ids_)
+        byvec = {}
+        for r in recs:
+            byvec.setdefault(hxl(r.vec), set()).add(hxl(r.costs))
+        stats["cases_with_shared_vectors_and_other_costs"] += any(len(s) > 1 for s in byvec.values())
+        if len(ctx.samples) < 2 and len(recs) >= 4 and len(set(tags)) >= 2 and label == "single":
             ctx.sample({"nparams": npar, "criteria": crit, "recorded": cj["recorded"],
                         "queries": [list(q) for _, q in queries[:8]], "observed": obs[:8]})
+
+    def ask(sess, full, scramble_p, label):
+        queries = results_queries(rng, sess.npar, sess.crit, sess.recs, full=full)
+        obs, cj = run_queries(sess, queries, ctx, stats, rng, scramble_p)
+        emit(sess, queries, obs, cj, label)
+
+    # ---- result queries: one recording per case -----------------------------------------------------
+    corpus = []
+    for path in sorted(glob.glob(os.path.join(VERIF, "corpus", "C17", "*.json"))):
+        for c in json.load(open(path))["cases"]:
+            corpus.append(c)
+    rcases = [(c["nparams"], c["criteria"], [Rec(*r) for r in c["recorded"]]) for c in corpus if c["kind"] == "results"]
+    ncorpus = len(rcases)
+    for _ in range(ctx.pick(300, 8000)):
+        rcases.append(gen_results_case(rng))
+    for k, (npar, crit, recs) in enumerate(rcases):
+        pooled = k < ncorpus or rng.random() < 0.8
+        sess = Session(env, npar, crit, pooled)
+        if pooled:
+            sess.reused = used[(npar, tuple(crit))] - 1
+            stats["recordings_on_a_reused_problem"] += sess.reused > 0
+        sess.start(rng)
+        sess.record(recs)
+        stats["single_recordings"] += 1
+        ask(sess, full=(k < ncorpus or k % 5 == 0), scramble_p=0.5, label="single")
+        if not pooled:
+            retire(sess.problem)
+
+    # ---- result queries: histories on one problem and one Results object -----------------------------
+    for _ in range(ctx.pick(55, 1500)):
+        npar, crit, steps, fresh = gen_session(rng)
+        sess = Session(env, npar, crit, pooled=not fresh)
+        if not fresh:
+            sess.reused = used[(npar, tuple(crit))] - 1
+        sess.start(rng)
+        stats["sessions"] += 1
+        for st in steps:
+            stats["session_steps"][st[0]] = stats["session_steps"].get(st[0], 0) + 1
+            if st[0] == "query":
+                stats["session_snapshots"] += 1
+                ask(sess, full=False, scramble_p=1.0, label="session")
+            else:
+                sess.step(st)
+        if fresh:
+            retire(sess.problem)
+
+    # ---- result queries: a problem with a data store (the store keeps its own JSON copy of every individual) ----
+    for k in range(ctx.pick(8, 150)):
+        while True:
+            npar, crit, recs = gen_results_case(rng)
+            if len(recs) >= 2 and any(r.how.get("path") in EVALUATED for r in recs):
+                break
+        for r in recs:
+            r.how.pop("id", None)                # the store is keyed by id
+            if r.how.get("rep") == "int":
+                r.how["rep"] = "float"           # numpy.int64 entries of costs_signed cannot be written as JSON
+        db = os.path.join(ctx.work, "c17_store_%d.sqlite" % k)
+        sess = Session(env, npar, crit, pooled=False)
+        sess.problem.data_store = SqliteDataStore(sess.problem, database_name=db, mode="rewrite")
+        sess.start(rng)
+        sess.record(recs)                        # the job writes each evaluated individual to the store as it is then
+        if rng.random() < 0.7:                   # ... and the recording goes on changing in memory only
+            i = rng.randrange(len(recs))
+            sess.step(("retag", i, rng.choice([0, 1, 2, 5])))
+            i = rng.randrange(len(recs))
+            sess.step(("recost", i, [rng.choice(SMALL) for _ in crit]))
+        stats["sqlite_live"] += 1
+        ask(sess, full=False, scramble_p=0.5, label="sqlite_live")
+        sess.problem.data_store.sync_all()
+        view = ProblemViewDataStore(database_name=db)
+        if [p["name"] for p in view.parameters] != [pname(i) for i in range(npar)] or \
+                [c["name"] for c in view.costs] != [gname(j) for j in range(len(crit))]:
+            stats["sqlite_skipped"] += 1
+            retire(sess.problem)
+            retire(view)
+            continue
+        vcrit = [c.get("criteria") for c in view.costs]
+        loaded = Session(env, npar, vcrit, pooled=False, parts=(view, Results(view), None, None))
+        loaded.objs = list(view.individuals)
+        loaded.recs = [Rec(o.population_id, o.vector, o.costs, o.features["front_number"],
+                           {"path": "loaded", "id": o.id, "state": str(o.state)}) for o in loaded.objs]
+        loaded.history = [["written to a SqliteDataStore and read back through ProblemViewDataStore"]]
+        stats["sqlite_loaded"] += 1
+        ask(loaded, full=False, scramble_p=0.5, label="sqlite_loaded")
+        retire(sess.problem)
+        retire(view)
+
     n0 = len(ctx.mismatches)
     bad = ctx.coq_compare("c17_results", HEADER, "c17_case", "list obs", "c17_run", "c17_obs_eqb", cases, expected, meta,
                           shard=ctx.pick(40, 300))
@@ -538,6 +1175,7 @@ def run(ctx):
         if order_only:
             ctx.notes.append("%d case(s) differ from the model only in an order the property does not fix (table rows / groups, "
                              "values among equal keys of a sorted listing, choice among several extremal individuals)" % order_only)
+    nresults = len(cases)
 
     # ---- indicators -----------------------------------------------------------------------
     icases = [(c.get("style", "corpus"), c["ref"], c["comp"], c.get("shift"), c.get("only")) for c in corpus if c["kind"] == "indicator"]
@@ -554,7 +1192,7 @@ def run(ctx):
     def via_results(which, ref, comp):
         """the same call through Results.performance_measure: the computed set is the cost vectors of the last generation."""
         m = len(comp[0])
-        p = problem(1, [None] * m)
+        p = problem(1, [None] * m)[0]
         inds = []
         for t in range(rng.randrange(0, 3)):          # an older generation with other costs
             o = Individual([0.0]); o.costs = [dy(rng) for _ in range(m)]; o.population_id = rng.randrange(0, 3)
@@ -649,16 +1287,31 @@ def run(ctx):
     del stats["flip"]
     ctx.rule = ("result queries: 1-3 parameters, 1-3 goals with criteria drawn from {absent, minimize, maximize}, 0-10 recorded "
                 "individuals whose tags are drawn unsorted and repeated from a pool (plus ascending/descending/constant/all -1 "
-                "templates), values from small grids with ties, signed zeros, adjacent floats, huge magnitudes and infinities, "
-                "duplicated individuals, front numbers 1-3; every query method (population, Problem.population/last_population/"
-                "populations, table, parameters, costs, the three listings sorted and unsorted, goal/parameter_on_index, "
-                "pareto_individuals/front/values, get_population_ids, find_optimum per goal) is run on every case (all tags, an "
-                "absent tag and the default), a "
-                "case is non-trivial with >= 2 individuals; distinct = distinct (parameters, criteria, recording). Indicators: "
+                "templates). Individuals are put on a real Problem by hand (costs assigned, costs_signed empty), through "
+                "Job.evaluate / Algorithm.evaluate / Evaluator.evaluate_scalar (costs_signed = sign * round(cost, precision) "
+                "++ [feasibility marker]), through to_dict/JSON/from_dict, by Individual.copy(), as IndividualNSGAII / "
+                "IndividualEpsMOEA / IndividualSwarm objects, with float / numpy.float64 / int values, colliding ids, varied "
+                "precision and feasibility features, and with costs_signed left stale (costs replaced after the evaluation) or "
+                "set to reversed / constant / permuted / too short / unrounded lists: the model sees tag, vector and costs only. "
+                "Values from small grids with ties, signed zeros, adjacent floats, huge magnitudes and infinities, and from "
+                "grids whose members differ by 1e-8, 1e-11 or single ulps (equal after rounding to the stored precision, "
+                "different raw), duplicated individuals (same vector, other costs), front numbers 1-3. Every query method "
+                "(population, Problem.population/last_population/populations, table, parameters, costs, the three listings "
+                "sorted and unsorted, goal/parameter_on_index, pareto_individuals/front/values, get_population_ids, "
+                "find_optimum per goal) is run on every case (all tags, an absent tag and the default); the containers handed "
+                "out by the queries are modified by the caller and population, populations, table and find_optimum are asked "
+                "again at the end. Three kinds of cases: one recording on a problem / Results object shared by many cases; "
+                "histories on one problem and one long-lived Results object (record, query, record more, re-tag, replace costs / "
+                "vector, reorder or replace the individuals list, change a goal's criteria, query again: each query step is a "
+                "case on the recording as it is then); a problem with a SqliteDataStore (queried live while the store holds "
+                "older copies, and read back through ProblemViewDataStore). A case is non-trivial with >= 2 individuals; distinct "
+                "= distinct (kind, parameters, criteria, recording incl. how it was recorded). Indicators: "
                 "point sets of 1-6 points with 1-4 dyadic coordinates (random, identical, subset, shifted by d >= 0, shifted by "
                 "d < 0, near-duplicates, empty/zero-dimensional), non-trivial when well formed with >= 3 points in total; "
                 "30% of the cases with >= 2 computed points go through Results.performance_measure")
-    ctx.extra.update({"results_stats": stats, "indicator_stats": istats, "corpus_cases": len(corpus),
+    for parts in problems.values():
+        retire(parts[0])
+    ctx.extra.update({"results_stats": stats, "indicator_stats": istats, "corpus_cases": len(corpus), "result_query_cases": nresults,
                       "near_boundary": 0, "order_only_differences": order_only})
 
 
@@ -673,10 +1326,17 @@ LEVEL_TEXT = ("Machine-checked Coq theorems over a model of Problem.populations/
               "reference set shifted by d >= 0. gd (reals): mean distance to a nearest reference point, zero iff the computed "
               "points are reference points; its executable rational enclosure is proved to contain the real value. The models "
               "are tied to the code on every run by evaluating them in Coq on the recorded cases: ids and float bit patterns "
-              "compared exactly, epsilon_add exactly, gd against the proved enclosure.")
+              "compared exactly, epsilon_add exactly, gd against the proved enclosure. The recorded individuals are put on real "
+              "Problem objects the ways artap does it (Job / Algorithm.evaluate / evaluate_scalar with costs_signed populated, "
+              "from_dict, copy, read back from a SqliteDataStore) as well as by hand, with costs that differ below the stored "
+              "precision of costs_signed, stale or wrong costs_signed, colliding ids, shared vectors, and as histories on "
+              "long-lived Problem / Results objects whose returned containers the caller modifies between queries; the direct "
+              "oracle compares the raw recorded costs exactly.")
 LEVEL_NOTE = ("Trusted: Coq kernel + vm_compute; FloatAxioms for the binary64 order instance; classical-reals axioms for gd; the "
               "hand-written models and the Python harness. Sorted listings are proved paired up to `==` on keys (exactly when "
               "`==` is identity: -0.0/0.0 keys can swap places). Cases that differ from the model only in an order the property "
               "does not fix (rows/groups, ties) are counted as order-only differences, not as mismatches (0 on the current code). "
+              "The model takes tag, vector, costs, front number and criteria as the recorded data; that the code reads nothing "
+              "else (costs_signed, ids, features, the store, earlier calls) is checked by sampling, not proved. "
               "Indicator theorems are over Q/R; binary64 rounding is checked "
               "on the sampled dyadic point sets only. Correspondence is sampled, the theorems are unbounded.")
